@@ -160,6 +160,46 @@ fn probe_data<'a, D: SystemData<'a>>(world: &'a World, name: &str) -> Verdict {
         ensure!("C11", "declaration-mismatch", b == want,
             "{}: after fetch() the resource {} is borrowed {:?} but reads()/writes() declare {:?}", name, rname, b, want);
     }
+    // (iii) fetching must work while every resource it does not declare is borrowed exclusively,
+    // and while every resource it only reads is borrowed shared
+    macro_rules! hold {
+        ($r:ty, $rname:expr) => {{
+            let id = ResourceId::new::<$r>();
+            if !reads.contains(&id) && !writes.contains(&id) {
+                let guard = world.fetch_mut::<$r>();
+                let ok = catch_unwind(AssertUnwindSafe(|| {
+                    let _d = D::fetch(world);
+                }))
+                .is_ok();
+                drop(guard);
+                if !ok {
+                    crate::engine::take_last_panic();
+                }
+                ensure!("C11", "undeclared-borrow", ok, "{}: fetch() panics while the undeclared resource {} is borrowed exclusively elsewhere: it touches something it does not declare", name, $rname);
+            } else if reads.contains(&id) {
+                let guard = world.fetch::<$r>();
+                let ok = catch_unwind(AssertUnwindSafe(|| {
+                    let _d = D::fetch(world);
+                }))
+                .is_ok();
+                drop(guard);
+                if !ok {
+                    crate::engine::take_last_panic();
+                }
+                ensure!("C11", "read-declared-but-exclusive", ok, "{}: fetch() panics while {} (declared as read) is borrowed shared elsewhere", name, $rname);
+            }
+        }};
+    }
+    hold!(EntitiesRes, "EntitiesRes");
+    hold!(LazyUpdate, "LazyUpdate");
+    hold!(MetaTable<dyn AnyStorage>, "MetaTable");
+    hold!(MaskedStorage<K0>, "MaskedStorage<K0>");
+    hold!(MaskedStorage<K1>, "MaskedStorage<K1>");
+    hold!(MaskedStorage<K2>, "MaskedStorage<K2>");
+    hold!(MaskedStorage<K3>, "MaskedStorage<K3>");
+    hold!(MaskedStorage<K4>, "MaskedStorage<K4>");
+    hold!(MaskedStorage<K5>, "MaskedStorage<K5>");
+    hold!(MaskedStorage<K6>, "MaskedStorage<K6>");
     let after = all_resources(world);
     for (_, rname, b) in after {
         ensure!("C11", "borrow-leaked", b == Borrow::Free, "{}: resource {} still borrowed {:?} after the data was dropped", name, rname, b);
@@ -640,7 +680,7 @@ pub fn c11() -> Property {
                 shards: |_| 1,
                 run: c11_probe,
                 replay: c11_probe_replay,
-                rule: "exhaustive over 22 SystemData types (ReadStorage / WriteStorage of seven storage kinds incl. a zero-sized component in NullStorage, Entities, Read<LazyUpdate>, five tuples): fetch the data, then probe every resource of the world with catch_unwind(fetch / fetch_mut); the observed borrow state must be exclusive for exactly writes(), shared for exactly reads(), free otherwise, and free again after the drop; every type is one non-trivial case",
+                rule: "exhaustive over 22 SystemData types (ReadStorage / WriteStorage of seven storage kinds incl. a zero-sized component in NullStorage, Entities, Read<LazyUpdate>, five tuples): fetch the data, then probe every resource of the world with catch_unwind(fetch / fetch_mut); the observed borrow state must be exclusive for exactly writes(), shared for exactly reads(), free otherwise, and free again after the drop; fetch() must also succeed while every undeclared resource is held exclusively elsewhere and every read-declared one is held shared (no transient undeclared borrows); every type is one non-trivial case",
                 exe_env: None,
             },
             SubCheck {
